@@ -15,6 +15,9 @@ PID = 'C07'
 FLT = 'NoteSeqVerif.Props.C07_float'     # float bar length: exactness for power-of-two denominators (uses Proofs/Rounding*)
 MODULES = ['NoteSeqVerif.Proofs.C07Float', FLT, 'NoteSeqVerif.Props.C07']
 EXE = 'drv_c07'
+# translator tie T2 (gen/translit2.py): symbolic execution of the current source of steps_per_bar_in_quantized_sequence
+BRIDGE = 'NoteSeqVerif.Props.C07_bridge'
+BRIDGE_THEOREMS = ['NSV.C07.t2_steps_per_bar', 'NSV.C07.t2_steps_per_bar_int']
 THEOREMS = [
     # PianorollSequence
     'NSV.C07.pianoroll_frames', 'NSV.C07.pianoroll_frame_mem', 'NSV.C07.rollSpec_iff', 'NSV.C07.pianoroll_index_error_iff',
@@ -67,6 +70,15 @@ def generate(chk):
            + 'def NO_CHORD : String := "%s"\n' % nswire.hx(chords_lib.NO_CHORD)
            + 'end NSV.C07.Gen\n')
     chk.regenerate('NoteSeqVerif/Generated/C07.lean', txt)
+    from harness.t2 import generate_t2
+    from note_seq import sequences_lib as sl
+    generate_t2(chk, 'C07', [
+        dict(fn=sl.steps_per_bar_in_quantized_sequence, module=sl, name='steps_per_bar_in_quantized_sequence',
+             paths={'note_sequence.time_signatures[0].denominator': ('den', 'int'),
+                    'note_sequence.time_signatures[0].numerator': ('num', 'int'),
+                    'note_sequence.quantization_info.steps_per_quarter': ('spq', 'int')},
+             guards=['assert_is_relative_quantized_sequence']),
+    ])
 
 
 # ----------------------------------------------------------------------------- helpers
@@ -849,6 +861,7 @@ def run(chk):
         'rne53 as a model of IEEE-754 binary64 arithmetic (three operations of steps_per_bar; validated bit-exactly by the spb stream)',
         'numpy array semantics (zeros, slice assignment with clipping, where) and CPython sorted() stability / tuple order, modelled',
     ])
+    chk.prove_bridge([BRIDGE], [(BRIDGE, t) for t in BRIDGE_THEOREMS])
     chk.rule = ('quantized NoteSequences (0-40 notes, 1-3 instruments, pitched/drum/mixed per instrument number, velocities 0..127, '
                 'steps generated directly with forced step-0, abutting same-pitch, same-start and gap-boundary notes, same-pitch notes and '
                 'chord symbols at distinct times rounded onto one step (both storage orders), or produced by '
